@@ -22,6 +22,7 @@ def run(ck, fb):
     r12o(ck, fb)
     r12p(ck, fb)
     r12q(ck, fb)
+    ck.borrow('rules.c13', {'R13m': 'R12s'}, 'a registered, healthy ephemeral instance must be returned by a healthy-only query: a late probe result for the persistent instance that used to live at the address must not mark it unhealthy')
     ck.borrow('rules.c11', {'R11g': 'R12n'}, 'a connection that ends takes its ephemeral instances with it only if every instance it registered is in its owner set')
     ck.borrow('rules.c13', {'R13b': 'R12i'}, 'a live gRPC or persistent registration must not be expired by a stale heartbeat entry queued for the same address')
 
